@@ -126,6 +126,9 @@ def asSymExp (j : Json) : Except String (SymUnit Q × Int) :=
   | _ => .error "!bad-arg:symunit"
 
 def asRegEntry (j : Json) : Except String (RegEntry Q) :=
+  match j.getObjVal? "nf" with
+  | .ok v => do pure (.floatNum (← asRat v))
+  | .error _ =>
   match j.getObjVal? "n" with
   | .ok v => do pure (.num (← asRat v))
   | .error _ => do
@@ -134,11 +137,12 @@ def asRegEntry (j : Json) : Except String (RegEntry Q) :=
       pure (.q m dy)
 
 def showHuman : HumanEntry Q → String
-  | .one => "[1,1]"
+  | .one f => "[" ++ sr f ++ ",1]"
   | .fs f s => "[" ++ sr f ++ "," ++ jstr s ++ "]"
 
 def showRegEntry : RegEntry Q → String
   | .num x => "{\"n\":" ++ sr x ++ "}"
+  | .floatNum x => "{\"n\":" ++ sr x ++ "}"
   | .q m dy => "{\"m\":" ++ sr m ++ ",\"dimy\":[" ++ ",".intercalate (dy.map fun p =>
       "[" ++ jstr p.1.symbol ++ "," ++ sr p.1.unit.factor ++ "," ++ showDims p.1.unit.dims ++ "," ++ toString p.2 ++ "]") ++ "]}"
 
@@ -193,7 +197,7 @@ def h : Handler := fun op j =>
         | _ => do
           let es ← (← getArr j "entries").mapM fun e => match e with
             | .arr #[f, .str sym] => do pure (HumanEntry.fs (← asRat f) sym)
-            | .arr #[_, _] => pure HumanEntry.one          -- (factor, 1): only factor 1 is sent
+            | .arr #[f, _] => do pure (HumanEntry.one (← asRat f))          -- (factor, 1)
             | _ => .error "!bad-arg:human-entry"
           pure (some es)
       out (fun o => match o with
